@@ -25,7 +25,9 @@
 (*   kind, dw, hl (header length in bytes), swap (swap_field_bytes),       *)
 (*   fields = << [byte, offset, width], ... >> (sorted by field name, the  *)
 (*   order of the header's layout), minlen, maxlen (payload beats per      *)
-(*   packet), bubbles (1: the producer may pause inside a packet),         *)
+(*   packet), bubbles (1: the producer may pause inside a packet; 2: it    *)
+(*   may pause but keeps the payload of the beat accepted last on the bus, *)
+(*   last = 0, as the generator of the repository test does),              *)
 (*   junk (1: while valid = 0 the producer may drive arbitrary payload),   *)
 (*   cap, and for the exhaustive mode the stimulus alphabets fvals / hvals,*)
 (*   npar, tagmod, pad.                                                    *)
@@ -155,7 +157,7 @@ EnvOk(c, iv) ==
   /\ (hold = <<>> /\ iv[1] = 1) =>
        /\ Len(iv[2]) = BPC(c) /\ iv[3] \in {0, 1} /\ LastAllowed(c, ep.k, iv[3])
        /\ (ep.k > 0 /\ c.kind # "dp") => iv[4] = ep.fv
-  /\ iv[1] = 0 => (c.bubbles = 1 \/ ep.k = 0)
+  /\ iv[1] = 0 => (c.bubbles = 1 \/ ep.k = 0 \/ (c.bubbles = 2 /\ tok = <<ep.prev, 0, ep.fv>>))
 
 TagByte(c, par, p) == 1 + par * c.tagmod + p
 PayBytes(c, par, k) == [j \in 1..BPC(c) |-> TagByte(c, par, k * BPC(c) + j - 1)]
@@ -188,6 +190,7 @@ Inputs(c) ==
        (IF c.bubbles = 1 \/ ep.k = 0
         THEN { Flat(c, 0, ZeroTok(c), r) : r \in {0, 1} } \cup
              (IF c.junk = 1 THEN { Flat(c, 0, JunkTok(c), r) : r \in {0, 1} } ELSE {})
+        ELSE IF c.bubbles = 2 THEN { Flat(c, 0, <<ep.prev, 0, ep.fv>>, r) : r \in {0, 1} }
         ELSE {})
 (* flat vectors -> normalised events *)
 NormI(c, iv) == <<iv[1], Bytes2(iv[2], iv[3], BPC(c)), iv[4],
@@ -199,11 +202,11 @@ NormO(c, o) == <<o[1], o[2], Bytes2(o[3], o[4], BPC(c)), o[5],
 ---------------------------------------------------------------------------
 (* One clock cycle of the contract                                         *)
 CInit ==
-  /\ ep = [par |-> 0, k |-> 0, fv |-> <<>>, v |-> 0]
+  /\ ep = [par |-> 0, k |-> 0, fv |-> <<>>, v |-> 0, prev |-> <<>>]
   /\ hold = <<>> /\ pk = <<>> /\ w = 0 /\ oprev = FALSE
   /\ obs = [okshow |-> TRUE, okdata |-> TRUE, oklast |-> TRUE, okfields |-> TRUE, okhold |-> TRUE,
             okbound |-> TRUE, srcfire |-> FALSE, sinkfire |-> FALSE, coop |-> FALSE, rdy |-> FALSE,
-            owed |-> FALSE]
+            act |-> FALSE, owed |-> FALSE]
 
 CStep(c, iv, o) ==
   LET offered  == iv[1] = 1
@@ -221,8 +224,8 @@ CStep(c, iv, o) ==
       vfield   == IF c.kind = "dp" THEN iv[1] ELSE 0
   IN
   /\ ep'    = IF ~sinkfire THEN ep
-              ELSE IF iv[3] = 1 THEN [par |-> (ep.par + 1) % c.npar, k |-> 0, fv |-> <<>>, v |-> 0]
-              ELSE [par |-> ep.par, k |-> ep.k + 1, fv |-> iv[4],
+              ELSE IF iv[3] = 1 THEN [par |-> (ep.par + 1) % c.npar, k |-> 0, fv |-> <<>>, v |-> 0, prev |-> <<>>]
+              ELSE [par |-> ep.par, k |-> ep.k + 1, fv |-> iv[4], prev |-> iv[2],
                     v |-> IF c.kind = "dp" /\ "hvals" \in DOMAIN c
                           THEN (IF ep.k = 0
                                 THEN (LET S == {x \in 1..Len(c.hvals) : RawBytes(c, ep.par, x, 0, iv[3]) = iv[2]}
@@ -243,6 +246,9 @@ CStep(c, iv, o) ==
                sinkfire |-> sinkfire,
                coop     |-> (offered /\ iv[5] = 1),
                rdy      |-> (iv[5] = 1),
+               \* the producer is not pausing inside a packet (a realigning element holds the residue of an accepted
+               \* beat until the next beat or the end of the packet arrives)
+               act      |-> (offered \/ (IF sinkfire THEN iv[3] = 1 ELSE ep.k = 0)),
                owed     |-> (pk2 # <<>> /\ CanShow(c, Head(pk2), w2))]
 
 ---------------------------------------------------------------------------
